@@ -260,6 +260,15 @@ func (e *Env) coercer(n *Node) conf.CoercerFunc {
 			e.Log = append(e.Log, ev)
 		}
 		if s, ok := data.(string); ok && s == "COERCE-ERR" {
+			// "errors returned by you can be the ZogIssue interface or an error": the refusal takes one of several shapes
+			switch n.ID % 4 {
+			case 1:
+				return nil, &z.ZogIssue{Message: "custom coercer refused"}
+			case 2:
+				return nil, fmt.Errorf("custom coercer: %w", &z.ZogIssue{Code: "refused", Message: "custom coercer refused"})
+			case 3:
+				return nil, errors.Join(errors.New("custom coercer refused"), errors.New("twice"))
+			}
 			return nil, errors.New("custom coercer refused")
 		}
 		return CustomCoerce(kind, data), nil
@@ -901,12 +910,19 @@ func (e *Env) customCall(n *Node, p any, ctx z.Ctx) bool {
 		if !rv.IsValid() || rv.Kind() != reflect.Pointer || rv.IsNil() {
 			return true
 		}
+		if n.CustomFn == "normalize" {
+			ApplyCustomNorm(rv.Elem())
+		}
 		return safeEvalFunc(n.CustomFn, rv.Elem())
 	}
 	ev := Event{Kind: "custom", Node: n.ID, Ctx: e.ctxVals(ctx)}
 	rv := describeArg(&ev, p)
 	ok := true
 	if rv.IsValid() {
+		if n.CustomFn == "normalize" {
+			// a custom function that canonicalises the value it validates (it holds a pointer to the destination)
+			ApplyCustomNorm(rv)
+		}
 		ok = safeEvalFunc(n.CustomFn, rv)
 	}
 	ev.Ret = fmt.Sprint(ok)
